@@ -643,6 +643,37 @@ def run(ctx):
                                  "a certificate valid for the address's host name is accepted although the application asked for other names only" % f.name, loc=f.loc(c))
     if nadd < 1:
         raise Broken("C09.R8: no append to valid_peer_names found (the default from the address)")
+    # ... and the set is never empty: an empty (non-NULL) list passes every `!= NULL` test, adds no host to OpenSSL's
+    # verification parameters and thereby switches name verification off.  A list that comes from splitting the
+    # application's string is stored only where its length was tested to be positive.
+    nsplit = 0
+    for f in P.fns_in(bt.slots["connect"].file.split("/")[-1]):
+        for b, i, e, lhs, rhs, op in f.stores():
+            if op != "=" or rhs is None or f.fields_of(lhs)[-1:] != ("valid_peer_names",):
+                continue
+            o = f.nodes[f.origin(rhs)]
+            if not (o["k"] == "call" and o.get("callee") == "slist_split"):
+                continue
+            nsplit += 1
+            r8.instance("%s: %s" % (f.qname, f.show(e)[:60]))
+            var = f.nodes[f._strip0(rhs)]
+
+            def nonempty(fn, cond):
+                l, opx, r = C.cond_atom(fn, cond, True)
+                ln = fn.sn(l)
+                if ln["k"] == "call" and ln.get("callee") == "slist_len" and (isinstance(r, tuple) and r[1] == 0 or (not isinstance(r, tuple) and C.const_of(fn, r) == 0)):
+                    a = fn.nodes[fn._strip0(ln["args"][0])]
+                    if a["k"] == "ref" and a.get("did") == var.get("did"):
+                        return "T" if opx in (">", "!=") else ("F" if opx in ("==", "<=") else None)
+                return None
+            if SUM.guarded(P, f, e, nonempty):
+                r8.ok("%s stores the application's name list only when it is not empty" % f.qname, "control dependence on slist_len(...) > 0")
+            else:
+                r8.violation("%s:empty-peer-names" % f.name, "%s stores the list split from the application's string without testing that it holds a name: with "
+                             "tls.peer_names=\"\" the list is empty but present, no host name is handed to OpenSSL and any certificate of the trusted CA is accepted "
+                             "although tls.verify_peer_name is on" % f.name, loc=f.loc(e))
+    if nsplit < 1:
+        raise Broken("C09.R8: the setter that splits tls.peer_names was not found")
 
     # ------------------------------------------------------------------ R9
     from . import C18 as c18
